@@ -10,8 +10,8 @@ CHECKS = {
    note="A1, A2; calcule_base and scipy euclidean by contract; structure scope stated in evidence; arbitrary molecule size not proved",
    tech=TECH + ": symbolic execution of the real classes per structure, callees by contract, lemma calls, z3 + Groebner", ref="DESIGN.md section 6 C01"),
  "C02": dict(cat="other", engine="symrun",
-   text="Same harness, map applied at P and at R P + t with R in SO(3) symbolic. Generic anchors: out' = R out + t from the equivariance clause of calcule_base (certificate); every anchor incl. collinear, and 2-/1-atom references with the random completion as fresh symbols: distance to anchor, coordinate along the axis (and hence distance from the axis) preserved from orthonormality alone; the axis itself moves rigidly (scripted proof); two-atom references build the frame axis from the bond. Structure-bounded.",
-   note="the equivariance clause of calcule_base (frame rows rotate with the points, non-collinear input) is an assumed clause of its contract, cross-checked numerically; A1, A2, A7 (random draws are not exactly degenerate)",
+   text="Same harness, map applied at P and at R P + t with R in SO(3) symbolic. calcule_base equivariance (frame rows rotate with the points, non-collinear input) is PROVED on the real function by two symbolic runs and a scripted proof; generic anchors: out' = R out + t from that clause (certificate); every anchor incl. collinear, and 2-/1-atom references with the random completion as fresh symbols: distance to anchor, coordinate along the axis (and hence distance from the axis) preserved from orthonormality alone; the axis itself moves rigidly (scripted proof); two-atom references build the frame axis from the bond. Structure-bounded.",
+   note="A1, A2, A7 (random draws are not exactly degenerate); structure scope as in C01; calcule_base by contract in the glue runs, its equivariance clause proved separately on the real code",
    tech=TECH + ": symbolic execution per structure, explicit polynomial certificates, Groebner lemmas", ref="DESIGN.md section 6 C02"),
  "C03": dict(cat="other", engine="symrun",
    text="Map built at P, applied to an independent symbolic conformation P': distance to the anchor = s x construction distance and mutual distances of atoms sharing an anchor scale by s (lemma instances N1/N3 + certificate); locality as a free-symbol frame: the mapped atom's term mentions only the new coordinates of its anchor and the anchor's two lowest-numbered bonded atoms; frames built from exactly those atoms. Structure-bounded; float twin separate.",
